@@ -106,35 +106,47 @@ pub fn judge_angle(call: usize, x: [f64; 2], l: Option<&mut crate::run::Local>) 
         Ok(r) => [r.hi(), r.lo()],
         Err(m) => return Verdict::fail("no_panic", name, &args, format!("panic: {}", m), "a value".into(), "panic"),
     };
-    // the trait spellings of the two conversions must be the same function
-    if let Ok((a, b)) = api(|| if call == 0 { (<TF as num_traits::Float>::to_degrees(t), <TF as num_traits::float::FloatCore>::to_degrees(t)) } else { (<TF as num_traits::Float>::to_radians(t), <TF as num_traits::float::FloatCore>::to_radians(t)) }) {
-        for (nm, v) in [("Float", a), ("FloatCore", b)] {
-            if v.hi().to_bits() != r[0].to_bits() || v.lo().to_bits() != r[1].to_bits() {
-                return Verdict::fail("angle: trait spelling", name, &args, format!("{}::{} = {}", nm, name, show_dd([v.hi(), v.lo()])), format!("inherent {}", show_dd(r)), "spelling_differs");
+    // the trait spellings of the two conversions: whenever one returns different words it is judged by the same
+    // tolerance (that the spellings are bit-identical is C10's claim, not this property's)
+    let mut cands: Vec<(&'static str, [f64; 2])> = vec![(name, r)];
+    match api(|| if call == 0 { (<TF as num_traits::Float>::to_degrees(t), <TF as num_traits::float::FloatCore>::to_degrees(t)) } else { (<TF as num_traits::Float>::to_radians(t), <TF as num_traits::float::FloatCore>::to_radians(t)) }) {
+        Ok((a, b)) => {
+            for (nm, v) in [(["Float::to_degrees", "Float::to_radians"][call], a), (["FloatCore::to_degrees", "FloatCore::to_radians"][call], b)] {
+                if v.hi().to_bits() != r[0].to_bits() || v.lo().to_bits() != r[1].to_bits() {
+                    cands.push((nm, [v.hi(), v.lo()]));
+                }
             }
         }
+        Err(m) => return Verdict::fail("no_panic", name, &args, format!("panic in a trait spelling: {}", m), "a value".into(), "panic"),
     }
     let xb = bfx(x);
-    judge_tol(
-        "angle: 6u^2",
-        name,
-        &args,
-        r,
-        |p| {
-            let xi = Iv::from_exact(&xb, p + 8);
-            let e = if call == 0 { xi.mul_small(180, p + 8).div(&rf::pi(p + 8), p) } else { xi.mul(&rf::pi(p + 8), p + 8).div_small(180, p) };
-            let tol = e.abs().mul_small(6, p).mul_pow2(-106);
-            Some((e, tol))
-        },
-        l,
-    )
+    let mut l = l;
+    for (nm, r) in cands {
+        let v = judge_tol(
+            "angle: 6u^2",
+            nm,
+            &args,
+            r,
+            |p| {
+                let xi = Iv::from_exact(&xb, p + 8);
+                let e = if call == 0 { xi.mul_small(180, p + 8).div(&rf::pi(p + 8), p) } else { xi.mul(&rf::pi(p + 8), p + 8).div_small(180, p) };
+                let tol = e.abs().mul_small(6, p).mul_pow2(-106);
+                Some((e, tol))
+            },
+            l.as_deref_mut(),
+        );
+        if v.is_fail() {
+            return v;
+        }
+    }
+    Verdict::Pass
 }
 
 pub fn replay(call: &str, _clause: &str, args: &[u64]) -> Verdict {
     match call {
         "const" => judge_const(args[0] as usize),
         "assoc" => judge_assoc(),
-        "to_degrees" => judge_angle(0, [f64::from_bits(args[0]), f64::from_bits(args[1])], None),
+        "to_degrees" | "Float::to_degrees" | "FloatCore::to_degrees" => judge_angle(0, [f64::from_bits(args[0]), f64::from_bits(args[1])], None),
         _ => judge_angle(1, [f64::from_bits(args[0]), f64::from_bits(args[1])], None),
     }
 }
